@@ -918,7 +918,9 @@ bool Builder::FinishCommand(BuildResult::CommandCompleted& result,
   vector<Node*> deps_nodes;
   string deps_type = edge->GetBinding("deps");
   const string deps_prefix = edge->GetBinding("msvc_deps_prefix");
-  if (!deps_type.empty()) {
+  // A dry run executed nothing: there is no output to filter and a depfile
+  // found on disk is a leftover that must not be consumed (and deleted).
+  if (!deps_type.empty() && !config_.dry_run) {
     string extract_err;
     if (!ExtractDeps(result, deps_type, deps_prefix, &deps_nodes,
                      &extract_err) &&
